@@ -13,6 +13,8 @@ BATTERIES = {
     "C17": [("c17_rect.py", "{n} {seed}", r"mismatches (\d+)", (250, 2500))],
     "C10": [("c10_truncate.py", "{n} {seed}", r"checked \d+ bad (\d+)", (60, 400))],
     "C04": [("c04_round_tucker.py", "{seed} {n}", r"mismatches (\d+)", (150, 1200))],
+    "C05": [("c05_fixed_rank.py", "{seed} {n}", r"mismatches (\d+)", (100, 800))],
+    "C07": [("c07_tangent.py", "{n} {seed}", r"mismatches: (\d+)", (80, 500))],
     "C15": [("c15_logic.py", "{n} {seed}", r"mismatches: (\d+)", (60, 500))],
     "C09": [("c09_sobol.py", "{seed} {n}", r"mismatches (\d+)", (80, 600))],
 }
